@@ -22,6 +22,7 @@
 #include <signal.h>
 #include <sys/wait.h>
 #include <sys/stat.h>
+#include <math.h>
 #include <sys/resource.h>
 #include <sys/types.h>
 
@@ -223,7 +224,14 @@ static int cb_parse(cfg_t *cfg, cfg_opt_t *opt, const char *value, void *result)
 		*(long *)result = (long)strlen(value);
 		break;
 	case CFGT_FLOAT:
-		*(double *)result = (double)strlen(value);
+		if (!strncmp(value, "huge", 4)) {
+			*(double *)result = HUGE_VAL;		/* "never", "unlimited": a callback may well answer infinity */
+		} else if (!strncmp(value, "erange", 6)) {
+			*(double *)result = 1.0;
+			errno = ERANGE;				/* ... or clamp an overflow itself and leave errno behind */
+		} else {
+			*(double *)result = (double)strlen(value);
+		}
 		break;
 	case CFGT_BOOL:
 		*(cfg_bool_t *)result = (cfg_bool_t)(strlen(value) % 2 == 1);
